@@ -72,6 +72,17 @@ def run(tier, seed):
             ok, back = False, "raises " + type(e).__name__
         if not ok:
             viol("byte", {"byte": b}, "codepage: byte does not round-trip", {"byte": b}, chr(b), back)
+        # the same byte as main.py hands it over with the v flag (a bytes object read from a file), and as a bytearray
+        for form, arg in (("bytes", bytes([b])), ("bytearray", bytearray([b]))):
+            rep.count()
+            try:
+                s2 = enc.vyxal_to_utf8(arg)
+                ok2 = s2 == cp[b]
+            except Exception as e:
+                ok2, s2 = False, "raises " + type(e).__name__
+            if not ok2:
+                viol("byte", {"byte": b, "given_as": form}, "codepage: byte decodes differently when given as bytes", {"byte": b, "form": form},
+                     cp[b], s2)
 
     # (b) all 65536 two-byte strings, both directions
     bad_pairs = 0
@@ -85,6 +96,11 @@ def run(tier, seed):
                 if bad_pairs <= 50:
                     viol("bytepair", {"bytes": [a, b]}, "codepage: byte pair does not round-trip",
                          {"bytes": "%d,%d" % (a, b)}, [a, b], [ord(c) for c in back])
+            if enc.vyxal_to_utf8(bytes([a, b])) != s:
+                bad_pairs += 1
+                if bad_pairs <= 50:
+                    viol("bytepair", {"bytes": [a, b], "given_as": "bytes"}, "codepage: byte pair decodes differently when given as bytes",
+                         {"bytes": "%d,%d" % (a, b)}, s, enc.vyxal_to_utf8(bytes([a, b])))
             t = cp[a] + cp[b]
             tb = enc.utf8_to_vyxal(t)
             if enc.vyxal_to_utf8([ord(c) for c in tb]) != t:
